@@ -247,6 +247,27 @@ theorem accepted_fixed_point_full_refuted :
 example : printB (joined [point 3, between 3, point 3]) = [106, 111, 105, 110, 40, 52, 44, 51, 94, 52, 44, 52, 41] ∧
     printB (joined [point 3, point 3]) = [106, 111, 105, 110, 40, 52, 44, 52, 41] ∧ printB (point 3) = [52] := by decide +kernel
 
+/-! ### OPEN (audit S7, item 1(b)): parser results are canonical — NOT proved
+
+FULL STATEMENT (not proved, believed true with the guards below):
+
+    theorem parse_result_canon (s : Pars.Bytes) (l : Loc) (r : Pars.Bytes)
+        (hp : parseLocationK3 s = .ok (l, false, r))      -- accepted, parse-level K3 guard false (Spec/ParseK3.lean)
+        (hc : coordsOkText s)                              -- every number of the text in [1, 2^62] (no `-5`, no `0`)
+        (hadj : no `join(` of the text has two neighbouring `complement(` parts after flattening)
+        : canonP l = true
+
+What exists: the guard itself (`parseLocationK3`, evaluated on both sides by the op `k3.parse`; the harness classifies
+failures of the string oracle with it), `join_canon_partial` (the `Join` step: needs `noAdjCompl` besides `joinK3 = false`,
+which is why `hadj` is in the statement), `complement_canon`, and the leaf cases (a contiguous result is canonical iff its
+coordinates are in range, by definition of `canonP`).  What is missing: (1) the simulation `parseLocationK3 s` = `parseLocation s`
+with a flag (a lock-step induction over the five mutual fuelled parsers of `LocParse`), (2) the invariant itself by the same
+induction — `multiple` yields a list of canonical parts, `orderOf` needs `Order` of canonical parts canonical (`flattenLocations`;
+no theorem yet), (3) the leaf parsers' coordinate bounds from the text.  No `…_partial` theorem is stated here: every part that
+closes today would not use its parser hypothesis (the objection of S7 to `accepted_fixed_point_partial`).  Note that `canonP`
+does NOT exclude empty or inverted spans (`canonP (ranged 4 4 false false) = true`): `join(5,5..4)` is accepted with the K3
+guard false, is canonical, and still loses a residue (`join_den_nonwf_refuted`, K6A). -/
+
 /-- FULL STATEMENT WITHOUT `wfList` (false, known finding K6A): "the reductions of `Join` keep the denoted
 residues for ALL argument lists as long as the K2 rule does not fire".  `join_den_partial` needs every range
 of the arguments non-empty (`wfList`), and the parser does NOT guarantee that: the text `join(5,5..4)`
